@@ -94,13 +94,13 @@ func corrC06(r *Run) {
 	}
 	// ---- random interleavings of threads running the extracted routines, through the model's semantics
 	if len(rs) > 0 {
-		for i, n := 0, r.N(40, 600); i < n; i++ {
+		for i, n := 0, r.N(160, 900); i < n; i++ {
 			c06Interleaving(r, rs, i)
 		}
 	}
 	// ---- the LTS's pending-table events, expanded into their routines, obey the discipline
 	ts := pduTypes()
-	for i, n := 0, r.N(12, 200); i < n; i++ {
+	for i, n := 0, r.N(48, 300); i < n; i++ {
 		c06LockTrace(r, ts, i)
 	}
 	// ---- dynamic
@@ -335,10 +335,10 @@ func raceLoadMain() {
 	sum := raceSummary{Workloads: map[string]int{}, RaceBuild: raceEnabled}
 	rng := &Rng{s: seed*0x9E3779B97F4A7C15 + 77}
 	ks := []int{1, 2, 4, 8, 16}
-	rounds := 1
+	rounds := 8
 	per := 25
 	if tier == "thorough" {
-		rounds, per = 6, 60
+		rounds, per = 10, 60
 	}
 	for round := 0; round < rounds; round++ {
 		for _, k := range ks {
@@ -354,9 +354,9 @@ func raceLoadMain() {
 	// forced schedules under the race detector
 	scratch := NewRun("C06race", tier, seed, filepath.Join(dir, "race_scratch"))
 	ts := pduTypes()
-	nf := 8
+	nf := 70
 	if tier == "thorough" {
-		nf = 60
+		nf = 120
 	}
 	for i := 0; i < nf; i++ {
 		c05Scenario(scratch, ts, i, 8)
@@ -365,9 +365,9 @@ func raceLoadMain() {
 	}
 	c15Witnesses(scratch)
 	// a response handed to the waiter while the request's own context ends: both branches of Submit's select are ready
-	nr := 40
+	nr := 400
 	if tier == "thorough" {
-		nr = 400
+		nr = 800
 	}
 	for i := 0; i < nr; i++ {
 		raceResponseVsContext(rng, ts, i)
